@@ -10,6 +10,7 @@ import (
 	"os"
 	"path/filepath"
 	"sort"
+	"strings"
 	"sync"
 	"testing"
 
@@ -111,8 +112,12 @@ func wantCond(k *model.KV, name string, v uint32, allowed bool) getOut {
 func checkC09(t *testing.T, env *report.Env, rep *report.Report) {
 	c09Concurrent(t, env, rep)
 	if env.Replay != "" {
+		if b, _ := os.ReadFile(env.Replay); strings.Contains(string(b), "fileclient-hand-written-files") {
+			c09Files(t, env, rep)
+		}
 		return
 	}
+	c09Files(t, env, rep)
 	depth := 4
 	if env.Thorough() {
 		depth = 7
